@@ -10,6 +10,8 @@ ID=$1; shift
 NAME=${SEEDED_NAME:-$ID}
 CHECKS=${@:-$ID}
 W=${MUT_W:-/tmp/mut/$ID}; O=${MUT_O:-/tmp/mut/$ID-out}; D=/verif/seeded/$NAME
+# SEED_REPO / SEED_VERIF: run against an isolated copy (a worktree of /repo and one of /verif whose harness go.mod points at it)
+R=${SEED_REPO:-/repo}; V=${SEED_VERIF:-/verif}; export VERIF_REPO=$R
 mkdir -p $D
 cp $O/patch.diff $D/patch.diff 2>/dev/null || git -C $W diff > $D/patch.diff
 rm -rf $D/demo; cp -r $O/demo $D/demo 2>/dev/null
@@ -29,15 +31,15 @@ else
   res "demo: no go.mod (see RUN.md)"
 fi
 # our checks
-if git -C /repo apply --check $D/patch.diff 2>/dev/null; then
-  git -C /repo apply $D/patch.diff
+if git -C $R apply --check $D/patch.diff 2>/dev/null; then
+  git -C $R apply $D/patch.diff
   for c in $CHECKS; do
-    ( cd /verif && ./check $c ) > $D/check_$c.log 2>&1; rc=$?
+    ( cd $V && ./check $c ) > $D/check_$c.log 2>&1; rc=$?
     v=$(grep -c '^VIOLATION' $D/check_$c.log)
     res "check $c on changed tree: exit=$rc violations=$v $(grep '^VIOLATION' $D/check_$c.log | head -1 | sed 's/replay=.*json//')"
     rp=$(grep '^VIOLATION' $D/check_$c.log | head -1 | sed 's/.*replay=\([^ ]*\).*/\1/'); [ -n "$rp" ] && cp "$rp" $D/replay_$c.json 2>/dev/null
   done
-  git -C /repo checkout -- . ; git -C /repo status --short | grep -v '^??' | head -3
+  git -C $R checkout -- . ; git -C $R clean -fdq; git -C $R status --short | grep -v '^??' | head -3
 else
   res "patch does not apply to /repo"
 fi
